@@ -117,6 +117,7 @@ class Model:
         self.action_defs = {}   # name -> dict(body=[texts], qkind=None|'P'|'I', def_step=int)
         self.date = [1, 0, 2020]   # day, month index, year
         self.step = 0
+        self.uda_devices = True    # WSEGVALV with a UDQ-valued area (C05 switches it off: not in the restart file)
 
     def clone(self):
         return copy.deepcopy(self)
@@ -412,7 +413,8 @@ def vfp_table(draw):
         flo = " ".join(str(10 * (i + 1)) for i in range(nf))
         thp = " ".join(str(20 * (i + 1)) for i in range(nt))
         rows = "".join(" %d %s /\n" % (t + 1, " ".join(str(100 + 10 * t + 5 * f) for f in range(nf))) for t in range(nt))
-        return "VFPINJ\n %d 2000 'WAT' 'THP' 1* 'BHP' /\n %s /\n %s /\n%s" % (num, flo, thp, rows)
+        return "VFPINJ\n %d 2000 '%s' 'THP' 1* 'BHP' /\n %s /\n %s /\n%s" % (
+            num, draw(st.sampled_from(["WAT", "WAT", "OIL", "GAS"])), flo, thp, rows)
     nf, nt, nw, ng, na = draw(st.integers(1, 3)), draw(st.integers(1, 2)), draw(st.integers(1, 2)), draw(st.integers(1, 2)), 1
     flo = " ".join(str(10 * (i + 1)) for i in range(nf))
     rows = ""
@@ -421,8 +423,10 @@ def vfp_table(draw):
             for w in range(nw):
                 for t in range(nt):
                     rows += " %d %d %d %d %s /\n" % (t + 1, w + 1, g + 1, a + 1, " ".join(str(100 + 10 * t + 5 * f + w + g) for f in range(nf)))
-    return ("VFPPROD\n %d 2000 'LIQ' 'WCT' 'GOR' 'THP' ' ' 1* 'BHP' /\n %s /\n %s /\n %s /\n %s /\n 0 /\n%s" % (
-        num, flo, " ".join(str(20 * (i + 1)) for i in range(nt)), " ".join(str(0.25 * i) for i in range(nw)),
+    kinds = draw(st.sampled_from(["'LIQ' 'WCT' 'GOR' 'THP' ' '", "'LIQ' 'WCT' 'GOR' 'THP' ' '", "'OIL' 'WOR' 'GLR' 'THP' 'GRAT'",
+                                  "'GAS' 'WGR' 'OGR' 'THP' 1*", "'LIQ' 'WCT' 'GLR' 'THP' 'IGLR'", "'OIL' 'WCT' 'GOR' 'THP' 'TGLR'"]))
+    return ("VFPPROD\n %d 2000 %s 1* 'BHP' /\n %s /\n %s /\n %s /\n %s /\n 0 /\n%s" % (
+        num, kinds, flo, " ".join(str(20 * (i + 1)) for i in range(nt)), " ".join(str(0.25 * i) for i in range(nw)),
         " ".join(str(100 * (i + 1)) for i in range(ng)), rows))
 
 
@@ -482,7 +486,7 @@ ACTION_BODY = ["welopen", "wconprod", "wconinje", "weltarg", "wefac", "gconprod"
                "nextstep"]
 
 
-Q_KINDS = {"welopen": None, "wconprod": "P", "wconinje": "I", "weltarg": None, "wefac": None, "wgrupcon": None, "wtest": None, "wecon": "P"}
+Q_KINDS = {"welpi": None, "welopen": None, "wconprod": "P", "wconinje": "I", "weltarg": None, "wefac": None, "wgrupcon": None, "wtest": None, "wecon": "P"}
 
 
 @st.composite
@@ -530,7 +534,14 @@ def kw_actionx(draw, m, body_kinds=None):
     return text
 
 
+@st.composite
+def kw_welpi(draw, m):
+    w = draw(st.sampled_from(sorted(w for w, W in m.wells.items() if W["conns"])))
+    return "WELPI\n '%s' %s /\n/\n" % (w, fnum(draw(st.sampled_from([1, 5, 20.5, 100]))))
+
+
 GENERATORS = {
+    "welpi": (kw_welpi, lambda m: any(W["conns"] for W in m.wells.values())),
     "welspecs": (kw_welspecs, lambda m: len(m.wells) < 6),
     "compdat": (kw_compdat, lambda m: bool(m.wells)),
     "wconprod": (kw_wconprod, lambda m: bool(_wells(m, "P"))),
@@ -623,7 +634,11 @@ def kw_msw(draw, m):
 def kw_wsegvalv(draw, m):
     w = draw(st.sampled_from(sorted(w for w, W in m.wells.items() if W.get("msw") and W.get("pdrop") != "H--")))
     seg = draw(st.integers(2, m.wells[w]["nseg"]))
-    form = draw(st.sampled_from(["valv", "valv", "valv+", "sicd", "sicd-", "sicd+", "aicd"]))
+    form = draw(st.sampled_from(["valv", "valv", "valv+", "sicd", "sicd-", "sicd+", "aicd"] + (["valv-uda"] if m.uda_devices else [])))
+    if form == "valv-uda":
+        # the valve area is a UDA item: a segment UDQ assigned just before (an ASSIGN is a complete definition)
+        return ("UDQ\n ASSIGN SUAREA '%s' %d %s /\n/\nWSEGVALV\n '%s' %d %s SUAREA /\n/\n" % (
+            w, seg, fnum(draw(st.sampled_from([4.5e-5, 0.002]))), w, seg, fnum(draw(st.sampled_from([0.7, 1.0])))))
     if form == "valv":
         return "WSEGVALV\n '%s' %d %s %s /\n/\n" % (w, seg, fnum(draw(st.sampled_from([0.7, 0.85, 1.0]))), fnum(draw(st.sampled_from([0.002, 0.01]))))
     if form == "valv+":
